@@ -355,7 +355,10 @@ def r3(repo, res):
 
                     cov = Obj(basic_filter=bf)
                     struct = Obj(position_cn=lambda p: 2)
-                    env = {"coverage.profile.cn_max": 20, "mutations": set(), "gene": Obj(region_at=lambda p: (0, "e1"))}
+                    # the enclosing function's *raw* coverage: its counts include low-quality reads, so its
+                    # threshold test succeeds whenever asked -- a closure consulting it gives the wrong table
+                    raw = Obj(profile=Obj(cn_max=20), basic_filter=lambda mut, cn=None, thres=None: True)
+                    env = {"coverage": raw, "mutations": set(), "gene": Obj(region_at=lambda p: (0, "e1"))}
                     for a in argn:
                         env[a] = struct
                     env[argn[-2]] = cov
@@ -449,6 +452,9 @@ MUTANTS = [
          new="            cond = cond or cov.basic_filter(\n                mut, cn=cn_solution.position_cn(mut.pos) + 0.5"),
     dict(name="R4 novel candidates without support test", module="major", expect="C15.R4",
          old="        if gene.is_functional(m) and coverage[Mutation(*m)] > 0", new="        if gene.is_functional(m)"),
+    dict(name="R3 major closure consults the raw coverage", module="major", expect="C15.R3",
+         old="            cond = cond and cov.basic_filter(\n                mut, cn=cn_solution.position_cn(mut.pos) + 0.5",
+         new="            cond = cond and coverage.basic_filter(\n                mut, cn=cn_solution.position_cn(mut.pos) + 0.5"),
     # benign
     dict(name="benign: chained filtered", module="major", kind="benign",
          old="    cov = coverage.filtered(Coverage.quality_filter)\n    cov = cov.filtered(filter_fns)",
